@@ -5,7 +5,7 @@ import shutil
 import tempfile
 
 from engine import gen_states, pool_map
-from readers import join_lines, run_cli, split_tag, write_text
+from readers import join_lines, run_cli, split_tag, write_text, workdir
 
 N1 = "ACGTTGCAAGGCTTAACGGATCCA"
 N2 = "TTGACCGATAGGCATCAAGT"
@@ -55,7 +55,7 @@ def run_file(job):
     import readers as _rd
 
     _rd.CASE = str(fid)
-    d = tempfile.mkdtemp(prefix="tags_")
+    d = workdir("tags_", fid)
     try:
         gfa = os.path.join(d, "g.gfa")
         with open(gfa, "w") as f:
